@@ -546,6 +546,11 @@ func runC13(c *Ctx) {
 	checkKnownErrorNotAnsweredWithNil(c, "R22")
 	checkSourceErrorBehindChunk(c, "R23")
 	checkConnSendReturnsTheWritersError(c, "R24")
+	// R25 (= C04.R5) pooled result channels are buffered; R26 (= C01.R9) Write moves the offset past what writeAt moved
+	// on every path; R27 (= C04.R9) the end of file is recognised by identity, not errors.Is
+	c.withOnly("R5", "R25", func() { runC04(c) })
+	checkOffsetStores(c, "R26", map[string]bool{"(*File).Write": true, "(*File).Read": true})
+	c.withOnly("R9", "R27", func() { runC04(c) })
 
 	// R7: ReadFrom / ReadFromWithConcurrency leave the File offset at the end of the intact prefix
 	checkOffsetStores(c, "R7", map[string]bool{"(*File).ReadFrom": true, "(*File).readFromWithConcurrency": true})
